@@ -213,7 +213,15 @@ def r1(ctx):
     ctx.emit('C03-R1', ok, BARCODEPARSER, reg, detail, key='registration-provenance')
     # candidates are (distance, origin) tuples so that sorting orders by distance first
     app = [c for c in walk_no_nested(f) if isinstance(c, ast.Call) and isinstance(c.func, ast.Attribute) and c.func.attr == 'append' and 'hammingSpace' in names_in(c.func.value)]
-    ok = len(app) == 1 and isinstance(app[0].args[0], ast.Tuple) and [src(e) for e in app[0].args[0].elts] == ['hammingDistance', 'barcode']
+    ok = False
+    if len(app) == 1 and isinstance(app[0].args[0], ast.Tuple) and len(app[0].args[0].elts) == 2 and all(isinstance(e, ast.Name) for e in app[0].args[0].elts):
+        # first the variable of the loop over the distances (range), then the variable of the loop over the whitelist
+        encl = [l for l in ast.walk(f) if isinstance(l, ast.For) and any(x is app[0] for x in ast.walk(l)) and isinstance(l.target, ast.Name)]
+        dist_vars = {l.target.id for l in encl if isinstance(l.iter, ast.Call) and dotted(l.iter.func) == 'range'}
+        circ = {l.target.id for l in encl if isinstance(l.iter, ast.Call) and (dotted(l.iter.func) or '').split('.')[-1] == 'hamming_circle'}
+        origin_vars = {l.target.id for l in encl} - dist_vars - circ
+        d_, o_ = [e.id for e in app[0].args[0].elts]
+        ok = d_ in dist_vars and o_ in origin_vars
     ctx.emit('C03-R1', ok, BARCODEPARSER, app[0] if app else f, 'candidates are stored as (distance, origin): sorting orders by distance first', key='candidate-tuple-order')
     ab = ctx.fn(BARCODEPARSER, f'{CLS}.addBarcode')
     pa, pb, pi, pd, po = [x.arg for x in ab.args.args[1:6]]
@@ -306,7 +314,7 @@ def _expand_by_interpretation(ctx, f):
     return (True, n, None)
 
 
-def _circle_by_interpretation(g):
+def _circle_by_interpretation(g, env=None):
     import itertools
     from ..consteval import run_function, Unfoldable
     n = 0
@@ -319,7 +327,7 @@ def _circle_by_interpretation(g):
                         continue            # a sample of the long-alphabet cubes is enough
                     for d in range(0, min(L, 2) + 1):
                         n += 1
-                        got = run_function(g, [s, d, alphabet], budget=60000)
+                        got = run_function(g, [s, d, alphabet], env=env, budget=60000)
                         got = sorted(''.join(x) if not isinstance(x, str) else x for x in list(got or []))
                         want = sorted(''.join(t) for t in itertools.product(alphabet, repeat=L) if sum(1 for a, b in zip(t, s) if a != b) == d)
                         if got != want:
@@ -373,7 +381,12 @@ def _r3_circle(ctx):
     s_, n_, a_ = [x.arg for x in g.args.args][:3]
     # decided by interpreting the generator on every string of length <= 3 over two small alphabets: it has to yield each string at Hamming
     # distance exactly n once, and nothing else (however positions and replacement letters are enumerated)
-    sem = _circle_by_interpretation(g)
+    try:
+        from ..consteval import module_scope
+        menv = module_scope(ctx.ix, BARCODEPARSER)        # module-level helpers the enumeration is delegated to
+    except Exception:
+        menv = None
+    sem = _circle_by_interpretation(g, menv)
     if sem is not None:
         okc, ncase, wit = sem
         ctx.counters['abstract_cases'] += ncase
@@ -391,6 +404,8 @@ def _r3_circle(ctx):
     if not ok:
         # positions enumerated elsewhere (a pattern table handed in by the caller): they must be the positions of the string being changed
         lens = []
+        f = ctx.fn(BARCODEPARSER, f'{CLS}.expand')
+        hc = [c for c in ast.walk(f) if isinstance(c, ast.Call) and (dotted(c.func) or '').split('.')[-1] == 'hamming_circle' and c.args]
         for scope, own in ((g, s_), (f, src(hc[0].args[0]) if hc else None)):
             for c_ in ast.walk(scope):
                 if isinstance(c_, ast.Call) and dotted(c_.func) == 'range' and len(c_.args) == 1 and isinstance(c_.args[0], ast.Call) and dotted(c_.args[0].func) == 'len' \
